@@ -19,11 +19,11 @@ Print Assumptions edge_invariant.
 
 (** ... hence at quiescence (no goroutine left) invalidation has reached every dependant, whatever the
     interleaving of Invalidate / Strobe / addOut / release / handler registration was. *)
-Theorem no_lost_invalidation_in_graph_partial :
+Theorem no_lost_invalidation_in_graph :
   forall k progs s, reachable (init k progs) s -> quiescent s ->
   forall n to, In to (n_out (getN s n)) -> n_inv (getN s n) = true -> n_inv (getN s to) = true.
 Proof. exact quiescent_closed. Qed.
-Print Assumptions no_lost_invalidation_in_graph_partial.
+Print Assumptions no_lost_invalidation_in_graph.
 
 From Thunder Require Import Reactive.ProofsMutex.
 
@@ -66,20 +66,13 @@ Proof. eexists. split; [vm_compute; reflexivity | split; [vm_compute; reflexivit
 
 From Thunder Require Import Reactive.ProofsArmed Reactive.ProofsReach.
 
-(** Armed invariant + Edge invariant at quiescence.
-
-    FULL STATEMENT (proved below as [no_lost_invalidation]):
-      forall k progs s r, reachable (init k progs) s -> quiescent s -> r < length (s_rrs s) ->
-        r_cancel (getr s r) = false -> r_failed (getr s r) = false ->
-        exists c, r_comp (getr s r) = Some c /\
-          forall sl v, In (sl, v) (n_val (getN s c)) -> v = slot_ver s sl.
-
-    PROVED HERE (partial): at quiescence a rerunner that was neither stopped (cancelled) nor has failed holds
-    a published computation c whose rerun handler is armed, and neither c nor any node c depends on through
-    a chain of addOut edges (resources, cached children, their resources) is invalidated: no invalidation that
-    reached the graph was lost on its way to the rerunner, in whichever window it landed.  What this leaves
-    out is the link between "a version was superseded" and "the resource node was invalidated / strobed". *)
-Theorem no_lost_invalidation_partial :
+(** Armed invariant + Edge invariant at quiescence: a rerunner that was neither stopped (cancelled) nor has
+    failed holds a published computation c whose rerun handler is armed, and neither c nor any node c depends on
+    through a chain of addOut edges (resources, cached children, their resources) is invalidated: no invalidation
+    that reached the graph was lost on its way to the rerunner, in whichever window it landed.  (The link between
+    "a version was superseded" and "the resource node was invalidated / strobed" is the Stale invariant:
+    [no_lost_invalidation] below is the statement about versions.) *)
+Theorem armed_computation_depends_on_no_invalid_node :
   forall k progs s r, reachable (init k progs) s -> quiescent s -> r < length (s_rrs s) ->
   r_cancel (getr s r) = false -> r_failed (getr s r) = false ->
   exists c, r_comp (getr s r) = Some c /\ n_hinv (getN s c) = Some r /\
@@ -91,7 +84,7 @@ Proof.
   intros n Hn. destruct (n_inv (getN s n)) eqn:I; [|reflexivity].
   rewrite (quiescent_reach_closed _ _ _ R Q _ _ Hn I) in E3. discriminate.
 Qed.
-Print Assumptions no_lost_invalidation_partial.
+Print Assumptions armed_computation_depends_on_no_invalid_node.
 
 (** Stop cancels the context before it takes r.mu: a stopped rerunner is a cancelled one (the exemption above
     is exactly "Stop was called"). *)
@@ -196,3 +189,111 @@ Example ex_q_facts :
   r_cancel (getr ex_q 0) = false /\ r_failed (getr ex_q 0) = false /\ r_cancel (getr ex_q 1) = false /\
   r_out (getr ex_q 0) = Some [(0, 2); (0, 2)] /\ r_out (getr ex_q 1) = Some [(0, 2)] /\ r_runs (getr ex_q 0) = 3.
 Proof. vm_compute. repeat split. Qed.
+
+From Thunder Require Import Reactive.Measure Reactive.ProofsMeasure Reactive.ProofsCacheKeys Reactive.ProofsLiveness.
+
+(** * "EVENTUALLY", FOR EVERY SCHEDULER
+
+    [mu s] (Reactive/Measure.v) is a natural number computed from the state: a weight per continuation frame of
+    every goroutine, a potential per node (a valid node can be marked invalid once: that walks its out set and
+    runs its rerun handler; an unreleased node can be released once: that walks its in list) and the snapshot
+    sizes of the pending strobes.  A *task label* is the execution of one critical section by one goroutine.
+
+    WELL-FOUNDED MEASURE.  Every task label strictly decreases [mu], in every reachable state, whichever
+    goroutine the scheduler picks — with one exception: the label "a run asleep on its re-run interval wakes
+    up" (rerunner.go:358-366: the timer of minRerunInterval, or of the doubled retryDelay after
+    RetrySentinelError, fires; [is_expiry]).  So between two such expiries no scheduler can make the system
+    take more than [mu s] steps: invalidation walks, release walks, cleanups, Stop, and every run that has
+    woken up (lock, cleanInvalidated, the compute function with its Cache calls and goroutines, publish, arm,
+    unlock) all terminate, under every interleaving. *)
+Theorem measure_decreases_on_every_task_label_but_interval_expiry :
+  forall k progs s tid arg s', reachable (init k progs) s ->
+  step s (LTask tid arg) = Some s' -> is_expiry s (LTask tid arg) = false ->
+  mu s' < mu s.
+Proof. exact measure_decreases_lemma. Qed.
+Print Assumptions measure_decreases_on_every_task_label_but_interval_expiry.
+
+(** ... and an expiry adds at most the cost of one run of the most expensive rerunner ([rerun_cost], which no
+    task label increases). *)
+Theorem interval_expiry_costs_at_most_one_rerun :
+  forall s tid arg s', step s (LTask tid arg) = Some s' -> is_expiry s (LTask tid arg) = true ->
+  mu s' + 1 <= mu s + rerun_cost s.
+Proof. exact expiry_cost_lemma. Qed.
+Print Assumptions interval_expiry_costs_at_most_one_rerun.
+
+(** EVERY SCHEDULE IS BOUNDED.  [irun s ls = Some (s', n)]: the list of task labels [ls] (any labels, any
+    order: any scheduler) is executable from s, leads to s' and contains n expiries of re-run intervals.  Its
+    length is at most [mu s + n * rerun_cost s].  In particular (n = 0) once injections have stopped and no
+    sleeping run wakes up, every execution is finite; and an infinite execution without injections must wake
+    sleeping runs infinitely often — which, by [dormant_rerunner_is_current_or_rerun_scheduled] below, happens
+    only as long as invalidations keep arriving at published computations (a compute function that returns
+    RetrySentinelError for ever, or one that registers a resource which is already invalid for ever, does so). *)
+Theorem every_schedule_is_bounded :
+  forall k progs s ls s' n, reachable (init k progs) s -> irun s ls = Some (s', n) ->
+  length ls + mu s' <= mu s + n * rerun_cost s.
+Proof. exact every_schedule_is_bounded_lemma. Qed.
+Print Assumptions every_schedule_is_bounded.
+
+(** PROGRESS, SHARPENED.  A reachable state in which no task label other than an expiry is enabled is
+    *settled*: every goroutine left is a run asleep on its re-run interval.  (With [progress]: a state in which
+    no task label at all is enabled is quiescent.)  Hypotheses as for [progress]. *)
+Theorem no_awake_label_means_settled :
+  forall k progs s, progs_ok k progs -> reachable (init k progs) s -> no_self_hit s ->
+  (forall tid arg s', step s (LTask tid arg) = Some s' -> is_expiry s (LTask tid arg) = true) ->
+  settled s = true.
+Proof. exact no_awake_label_means_settled_lemma. Qed.
+Print Assumptions no_awake_label_means_settled.
+
+(** EVENTUALLY SETTLED: every maximal execution between expiries is finite, with an explicit bound, and ends
+    settled — for every scheduler. *)
+Theorem every_execution_settles :
+  forall k progs s ls s' n, progs_ok k progs -> reachable (init k progs) s ->
+  irun s ls = Some (s', n) -> no_self_hit s' ->
+  (forall tid arg s'', step s' (LTask tid arg) = Some s'' -> is_expiry s' (LTask tid arg) = true) ->
+  length ls <= mu s + n * rerun_cost s /\ settled s' = true.
+Proof. exact every_execution_settles_lemma. Qed.
+Print Assumptions every_execution_settles.
+
+(** NO LOST INVALIDATION WITHOUT WAITING FOR QUIESCENCE.  A state is *dormant* when every frame left belongs to
+    a run asleep on its interval (or is an emptied walk beneath one).  In every reachable dormant state a
+    rerunner that is neither cancelled (stopped) nor failed either has a re-run scheduled — a run of it is
+    asleep and will execute when its interval expires — or holds an armed, valid computation all of whose
+    recorded versions are current.  "Eventually run again" is therefore: bounded work under every scheduler
+    ([every_schedule_is_bounded]) + the expiry of the interval timers (the only fairness assumption left: a Go
+    timer fires). *)
+Theorem dormant_rerunner_is_current_or_rerun_scheduled :
+  forall k progs s r, reachable (init k progs) s -> dormant s = true -> r < length (s_rrs s) ->
+  r_cancel (getr s r) = false -> r_failed (getr s r) = false ->
+  In (FRunWait r) (all_frames s) \/
+  exists c, r_comp (getr s r) = Some c /\ n_hinv (getN s c) = Some r /\ n_inv (getN s c) = false /\
+    forall sl v, In (sl, v) (n_val (getN s c)) -> v = slot_ver s sl.
+Proof. exact dormant_no_lost_invalidation. Qed.
+Print Assumptions dormant_rerunner_is_current_or_rerun_scheduled.
+
+(** non-vacuity.  Two rerunners sharing slot 0 ([ex_progs] above, the second with a non-spawning handler).
+    (1) The initial state — both first runs asleep on their intervals — is dormant, not quiescent, rerunner 0 has
+    its run scheduled; its measure is 2 (two sleeping runs), the cost of a re-run is 51.
+    (2) The driver's schedule from there to quiescence has 31 labels, 2 of them expiries: 31 + 22 <= 2 + 2 * 51.
+    (3) A Strobe injected at quiescence raises the measure from 22 to 26; with one strobe pending the cost of a
+    re-run is 102; the schedule to the next quiescent (hence dormant) state has 47 labels, 2 expiries. *)
+Example ex_dormant_not_quiescent :
+  let s := init 1 ex_progs in
+  dormant s = true /\ s_tasks s <> [] /\ In (FRunWait 0) (all_frames s) /\ mu s = 2 /\ rerun_cost s = 51.
+Proof. vm_compute. repeat split; try discriminate. left. reflexivity. Qed.
+
+Example ex_schedule_bound :
+  exists s' n, irun (init 1 ex_progs) (drive 300 (init 1 ex_progs)) = Some (s', n) /\
+    n = 2 /\ s_tasks s' = [] /\ length (drive 300 (init 1 ex_progs)) = 31 /\ mu s' = 22.
+Proof. eexists. eexists. split; [vm_compute; reflexivity|]. vm_compute. repeat split. Qed.
+
+Definition ex_strobed : state :=
+  let s1 := run_to_quiet 300 (init 1 ex_progs) in
+  match step s1 (LStrobe 0) with Some s => s | None => s1 end.
+Example ex_after_strobe :
+  mu (run_to_quiet 300 (init 1 ex_progs)) = 22 /\ mu ex_strobed = 26 /\ rerun_cost ex_strobed = 102 /\
+  exists s' n, irun ex_strobed (drive 300 ex_strobed) = Some (s', n) /\ n = 2 /\
+    length (drive 300 ex_strobed) = 47 /\ dormant s' = true /\ settled s' = true /\ mu s' = 22.
+Proof.
+  split; [vm_compute; reflexivity|]. split; [vm_compute; reflexivity|]. split; [vm_compute; reflexivity|].
+  eexists. eexists. split; [vm_compute; reflexivity|]. vm_compute. repeat split.
+Qed.
